@@ -6,7 +6,8 @@ ENTRY = {0: "TCP remote", 1: "Unix-socket remote", 2: "SOCKS5 CONNECT", 3: "SOCK
 SHAPE = {0: "local writes+half-closes, target answers after EOF", 1: "target writes+half-closes, local answers after EOF",
          2: "both write at once", 3: "target writes then closes", 4: "local writes then closes", 5: "target refuses", 6: "target answers, half-closes, then closes during the upload", 7: "slow half-closed target, 3 MB upload",
          8: "target answers+half-closes, local then sends and stays open until the target has it all",
-         9: "local writes+half-closes, target then answers and stays open until the local client has it all"}
+         9: "local writes+half-closes, target then answers and stays open until the local client has it all",
+         10: "local client gives up with its request in flight (the other connections must not notice)"}
 
 
 class C01(pure.Spec):
@@ -21,11 +22,11 @@ class C01(pure.Spec):
     design_ref = "DESIGN.md §5 C01"
     rule = ("the real client_main_inner and the real server run_listener on loopback, local clients and scripted targets "
             "driven by the harness: every entry point (TCP remote, Unix-socket remote, SOCKS5 CONNECT with IPv4 and domain "
-            "names, SOCKS4, SOCKS4a, HTTP CONNECT; for the proxy entries also an eager local client that sends its first payload bytes in the same write as the request; targets on the IPv4 and, where the machine has one, the IPv6 loopback: remote [::1]:port, SOCKS5 ATYP 4, CONNECT [::1]:port) x ten connection shapes (half-close by either side first with the "
+            "names, SOCKS4, SOCKS4a, HTTP CONNECT; for the proxy entries also an eager local client that sends its first payload bytes in the same write as the request; targets on the IPv4 and, where the machine has one, the IPv6 loopback: remote [::1]:port, SOCKS5 ATYP 4, CONNECT [::1]:port) x eleven connection shapes (half-close by either side first with the "
             "answer sent afterwards, both directions at once, close by the target, close by the local client, refusing "
-            "target, target closing completely during an upload after having half-closed, a slow half-closed target receiving a 3 MB upload, and the two half-close orders in which the late direction must be delivered while the connection stays open), 1-5 concurrent connections, chunk sizes 0..200 kB (several windows); UDP remote and SOCKS5 UDP "
+            "target, target closing completely during an upload after having half-closed, a slow half-closed target receiving a 3 MB upload, the two half-close orders in which the late direction must be delivered while the connection stays open, and local clients that give up while their stream request is in flight beside connections in progress; the client reaches the server through a relay that adds 15 ms to the server-to-client direction), 1-5 concurrent connections, chunk sizes 0..200 kB (several windows); UDP remote and SOCKS5 UDP "
             "association (own or shared association, IPv4, IPv6 and domain-name headers, one client alternating between two targets), 1-4 concurrent clients, datagram sizes "
-            "0..8 kB; and slow UDP clients whose datagrams are 3 s and 23 s apart (around and beyond the 10 s after which both ends forget an idle UDP client: active clients must stay registered, forgotten ones must be registered again), run beside the other cases. Observed: bytes received at both ends compared byte by byte with the peer's stream, how each side "
+            "0..8 kB; and slow UDP clients whose datagrams are 3 s and 23 s apart (around and beyond the 10 s after which both ends forget an idle UDP client: active clients must stay registered, forgotten ones must be registered again), run beside the other cases; and reply bursts (the target answers one datagram with 300-600 replies back to back, more than the tunnel's reply queue holds: some may be dropped, the next exchange must work as before). Observed: bytes received at both ends compared byte by byte with the peer's stream, how each side "
             "saw the end (clean EOF / reset / still open after 6 s), per UDP client the replies that are its own, foreign "
             "or duplicate replies, the source address of replies, RFC 1928 header well-formedness, datagrams the target "
             "got. Compared exactly with what a direct connection shows (Tunnel/Direct.v); a UDP case whose only deviation is a "
@@ -57,6 +58,8 @@ class C01(pure.Spec):
             return "tcp/entry%d.%d/%s" % (t[2], t[3], "".join(sorted(set(shapes))))
         if t[1] == 3:
             return "udp-slow/entry%d/n%d/gap%ds" % (t[2], t[3], t[4] // 1000)
+        if t[1] == 4:
+            return "udp-burst/entry%d/n%d" % (t[2], t[3])
         return "udp/entry%d/shared%d/v%d/clients%d" % (t[2], t[3], t[4], t[5])
 
     def equal(self, case, impl, model):
@@ -128,6 +131,8 @@ class C01(pure.Spec):
         t = [int(x) for x in case.split()]
         if t[1] == 1:
             return "TCP via %s (variant %d), %d connection(s): %s" % (ENTRY.get(t[2]), t[3], t[4], t[5:60])
+        if t[1] == 4:
+            return "UDP via %s: the target answers with a burst of %d replies, then one more exchange" % ("UDP remote" if t[2] == 0 else "SOCKS5 UDP association", t[3])
         if t[1] == 3:
             return "one slow UDP client via %s: %d datagrams %d ms apart" % ("UDP remote" if t[2] == 0 else "SOCKS5 UDP association", t[3], t[4])
         return "UDP via %s, shared association %d, header variant %d, %d client(s): %s" % (
